@@ -1155,7 +1155,7 @@ func (ev *Evaluator) call(c *grl.Call) (Val, error) {
 			if len(args) == 1 && args[0].K == VInt {
 				return BoolV(args[0].I > 0), nil
 			}
-		case "Heavy":
+		case "Heavy", "Iheavy":
 			if len(args) == 1 && args[0].K == VInt {
 				return IntV(facts.HeavyOf(args[0].I)), nil
 			}
